@@ -421,6 +421,14 @@ func genCfg(r *rng, p cp, names []string) *Cfg {
 	case 2:
 		c.Virt = true
 	}
+	if !p.wPos && r.chance(1, 16) { // every node of width 0 (ticks), heights kept
+		if c.Fixed != nil {
+			c.Fixed = []string{fs(0), c.Fixed[1]}
+		}
+		for k, v := range c.Sizes {
+			c.Sizes[k] = []string{fs(0), v[1]}
+		}
+	}
 	if r.chance(1, 4) {
 		c.Thor = []int{0, 1, 2, 28, 100}[r.intn(5)]
 	}
